@@ -161,6 +161,8 @@ pub struct BbObs {
     pub leaked: Vec<i32>,
     pub timed_out: bool,
     pub wall: Duration,
+    /// Planted state files (target id -> bytes still there and unmodified?) after the run.
+    pub planted_intact: BTreeMap<String, bool>,
 }
 
 fn service_pids(trace: &[TraceLine]) -> BTreeSet<i32> {
@@ -176,11 +178,31 @@ pub fn run_bb_case(case: &BbCase, extra_args: &[String], tag: &str) -> BbObs {
     let g = &case.graph;
     let sb = Sandbox::new(tag);
     let dir = write_bb_project(&sb, case);
+    // a dummy record (and an output file) for every target: nothing outside the closure may be
+    // touched by the run
+    let mut planted: Vec<(String, std::path::PathBuf, std::time::SystemTime)> = vec![];
+    for i in 0..g.n() {
+        if g.targets[i].kind == Kind::Aggregate {
+            continue;
+        }
+        let rel = format!("{}/.zinoma/{}.checksums", proj_rel(g.targets[i].proj), g.ids(i));
+        sb.write(&rel, format!("d{}", i).as_bytes());
+        let p = sb.path(&rel);
+        let mt = std::fs::metadata(&p).and_then(|m| m.modified()).unwrap_or(std::time::UNIX_EPOCH);
+        planted.push((g.ids(i), p, mt));
+    }
     let mut args: Vec<String> = extra_args.to_vec();
     for (k, &r) in case.roots.iter().enumerate() {
         args.push(cli_name(g, r, case.qualified && k % 2 == 0));
     }
-    run_and_observe(&sb, &dir, &args, Duration::from_secs(90))
+    let mut obs = run_and_observe(&sb, &dir, &args, Duration::from_secs(90));
+    for (i, (id, p, mt)) in planted.iter().enumerate() {
+        let _ = i;
+        let intact = std::fs::read(p).ok().is_some_and(|b| b.starts_with(b"d") && b.len() <= 4)
+            && std::fs::metadata(p).and_then(|m| m.modified()).ok() == Some(*mt);
+        obs.planted_intact.insert(id.clone(), intact);
+    }
+    obs
 }
 
 pub fn run_and_observe(
@@ -273,6 +295,7 @@ pub fn run_and_observe(
         leaked,
         timed_out,
         wall: start.elapsed(),
+        planted_intact: BTreeMap::new(),
     }
 }
 
@@ -647,6 +670,16 @@ pub fn bb_oracle_c08(case: &BbCase, obs: &BbObs) -> CaseResult {
                 "c08",
                 "outside",
                 format!("{} is outside the requested closure but was started", id),
+            );
+        }
+        if !clo.contains(&i) && obs.planted_intact.get(&id) == Some(&false) {
+            return viol(
+                r,
+                case,
+                obs,
+                "c08",
+                "state-touched",
+                format!("{} is outside the requested closure but its recorded state was deleted or rewritten", id),
             );
         }
     }
